@@ -3,7 +3,7 @@
    Part B (C14/GenProofs.v over Gen/Gen_Codecs.v, Gen/Gen_Enums.v): the per-pair chains of /repo as translated on
    this run realise those codecs on every expressible pair state (kernel computation over the generated text). *)
 From Coq Require Import List ZArith.
-From PG Require Import Base.ListSet Graph.MGraph C14.Defs C14.Model C14.Proofs C14.Lift C14.GenProofs Gen.Gen_Enums.
+From PG Require Import Base.ListSet Graph.MGraph C14.Defs C14.Model C14.Proofs C14.Lift C14.Lift2 C14.GenProofs Gen.Gen_Enums.
 Import ListNotations.
 Local Open Scope nat_scope.
 
@@ -57,13 +57,22 @@ Theorem export_entries_are_documented_codes : forall f c g order a b, In a order
 Proof. exact export_entries. Qed.
 Print Assumptions export_entries_are_documented_codes.
 
-(* partial: entry-wise on the pairs of the order (matrix extensionality — shape, diagonal — is not restated) *)
-Theorem import_export_f_c_partial : forall f c m order g a b, import_m f c m order = Some g ->
-  In (a, b) (ordered_pairs order) ->
-  exists s, dec f c (mat_at m order a b, mat_at m order b a) = Some s /\
-            enc f c s = (mat_at m order a b, mat_at m order b a).
-Proof. exact import_export_entries_partial. Qed.
-Print Assumptions import_export_f_c_partial.
+(* importing a well-formed matrix and exporting it again returns the same matrix (shape, diagonal, every entry);
+   wf_matrix: square over the order, zero diagonal, distinct nodes, every off-diagonal pair of entries in the image
+   of the pair encoder of the class *)
+Theorem import_export_f_c : forall f c m order, wf_matrix f c m order ->
+  exists g, import_m f c m order = Some g /\ V g = order /\ export_m f c g order = m.
+Proof. exact import_export. Qed.
+Print Assumptions import_export_f_c.
+
+Theorem import_export_of_accepted_matrix : forall f c m order g, import_m f c m order = Some g -> export_m f c g order = m.
+Proof. exact import_export_accepted. Qed.
+Print Assumptions import_export_of_accepted_matrix.
+
+Theorem exported_matrix_is_wellformed : forall f c g order, NoDup order -> all_adm f c g order = true ->
+  wf_matrix f c (export_m f c g order) order.
+Proof. exact export_wf. Qed.
+Print Assumptions exported_matrix_is_wellformed.
 
 Theorem ts_array_roundtrip_thm : forall d nv ml st x y lag,
   In (x, y, lag) (ts_import nv ml (ts_export d nv ml st)) <->
@@ -78,15 +87,15 @@ Proof. exact ts_array_roundtrip_inv. Qed.
 Print Assumptions ts_array_roundtrip_inv_thm.
 
 (* ---- B. the code of /repo as translated on this run *)
-Theorem repo_pair_roundtrip_clearn_pcalg : forall f c s, In f [FClearn; FPcalg] -> adm f c s = true ->
+Theorem repo_pair_roundtrip_numpy_clearn_pcalg : forall f c s, In f [FNumpy; FClearn; FPcalg] -> adm f c s = true ->
   exists xy, g_enc f c s = Some xy /\ g_dec f c xy = Some s /\ xy = enc f c s.
 Proof. exact gen_pair_roundtrip. Qed.
-Print Assumptions repo_pair_roundtrip_clearn_pcalg.
+Print Assumptions repo_pair_roundtrip_numpy_clearn_pcalg.
 
-Theorem repo_pair_roundtrip_inv_clearn_pcalg : forall f c xy, In f [FClearn; FPcalg] -> wellformed_pair f c xy ->
+Theorem repo_pair_roundtrip_inv_numpy_clearn_pcalg : forall f c xy, In f [FNumpy; FClearn; FPcalg] -> wellformed_pair f c xy ->
   exists s, g_dec f c xy = Some s /\ g_enc f c s = Some xy.
 Proof. exact gen_pair_roundtrip_inv. Qed.
-Print Assumptions repo_pair_roundtrip_inv_clearn_pcalg.
+Print Assumptions repo_pair_roundtrip_inv_numpy_clearn_pcalg.
 
 Theorem repo_numpy_decoder_inverts_documented_enumeration : forall c s, adm FNumpy c s = true ->
   g_dec FNumpy c (enc FNumpy c s) = Some s.
